@@ -1,6 +1,7 @@
 package h
 
 import (
+	"unicode"
 	"bytes"
 	"unicode/utf8"
 
@@ -400,7 +401,36 @@ func H_c19_filter_hist() {
 	vp.Reach("done")
 }
 
+// H_c19_casefold: labels that differ only in letter case normalise alike, for every rune of a block of 256
+// code points (the rune is symbolic; its partner is the next member of its simple case folding orbit as
+// computed by Go's unicode.SimpleFold, interpreted from its real source - an oracle independent of goldmark's
+// own folding table), with symbolic ASCII letters around it.
+func H_c19_casefold() {
+	base := vp.ParamInt("base", 0)
+	off := vp.IntRange("r", 0, 255)
+	r := rune(base + off)
+	vp.Assume(r < 0xD800 || r > 0xDFFF)
+	vp.Assume(r != ' ' && r != '\t' && r != '\n' && r != '\r' && r != '\v' && r != '\f') // whitespace is collapsed, not folded
+	f := unicode.SimpleFold(r)
+	if f == r {
+		vp.Reach("done")
+		return
+	}
+	vp.Reach("folding-pair")
+	x, y := vp.Byte("x"), vp.Byte("y")
+	vp.Assume(vp.And(vp.InRange(x, 'a', 'z'), vp.InRange(y, 'A', 'Z')))
+	a := utf8.AppendRune([]byte{x}, r)
+	b := utf8.AppendRune([]byte{x}, f)
+	a, b = append(a, y), append(b, y)
+	vp.Observe("a", a)
+	vp.Observe("b", b)
+	ra, rb := util.ToLinkReference(a), util.ToLinkReference(b)
+	vp.Assert(vp.EqString(ra, rb), "labels differing only in letter case (simple case folding) normalise differently")
+	vp.Reach("done")
+}
+
 func init() {
+	reg("H_c19_casefold", H_c19_casefold)
 	reg("H_c19_filter_hist", H_c19_filter_hist)
 	reg("H_c19_escape_html", H_c19_escape_html)
 	reg("H_c19_urlescape", H_c19_urlescape)
